@@ -123,3 +123,9 @@ Definition srun (t : stree) (fo : forest) (ops : list op) (s : sstate) : sstate 
 
 Definition sinit (genomes : list taxon) : sstate :=
   {| ss_genomes := genomes; ss_maps := []; ss_clust := []; ss_vis := [] |}.
+
+(* Ham.get_list_extant_genomes / get_list_ancestral_genomes: the nodes carrying a genome, by kind (the real
+   listings are built from sets: their order is not part of the result) *)
+Definition extant_listing (t : stree) (s : sstate) : list taxon := filter (is_leaf t) (ss_genomes s).
+Definition ancestral_listing (t : stree) (s : sstate) : list taxon :=
+  filter (fun p => negb (is_leaf t p)) (ss_genomes s).
